@@ -62,6 +62,16 @@ def scenarios(tier, seed=0):
     seqs = []
     for n in (1, 2, 3):
         seqs += [list(x) for x in itertools.product(["rerun", "rebuild"], repeat=n)]
+    # every catalogue crop on the default profile (each has its own Zmax -> its own deepening) and on a thick-compartment list
+    names = A.catalogue_names()
+    for i, name in enumerate(names):
+        for j, seq in enumerate((["rebuild", "rerun", "rebuild"], ["rerun", "rebuild", "rerun"])):
+            if tier == "quick" and (i + j) % 2:
+                continue
+            yield {"kind": "seq", "config": f"cat:{name}", "ops": seq}
+    for z in (0.6, 1.0, 1.3, 1.5, 1.7, 1.8, 2.0, 2.3, 2.8, 3.0):
+        for dz in (("d12", "d15") if tier != "quick" else ("d12",)):
+            yield {"kind": "seq", "config": f"zmax:{z}:{dz}", "ops": ["rebuild", "rerun", "rebuild"]}
     for name in C:
         for seq in seqs:
             if len(seq) < 3 and any(s2[:len(seq)] == seq for s2 in seqs if len(s2) > len(seq)):
@@ -94,7 +104,15 @@ def run(scn):
     def hit(k):
         wit[k] = wit.get(k, 0) + 1
 
-    spec = configs("thorough")[scn["config"]]
+    cname = scn["config"]
+    if cname.startswith("cat:"):
+        spec = A.catalogue_spec(cname[4:], word="hot", irr="smt")
+    elif cname.startswith("zmax:"):
+        _, z, dz = cname.split(":")
+        spec = A.to_spec(A._b(crop="maize.2", win="w1s", word="mix", dz=dz))
+        spec["crop"]["kw"] = {"Zmax": float(z)}
+    else:
+        spec = configs("thorough")[cname]
     ent = S.make_entities(spec)
     h_before = entity_hash(ent)
     done = []
